@@ -4,6 +4,7 @@ import (
 	"context"
 	"errors"
 	"fmt"
+	"io"
 	"net"
 	"net/http"
 	"runtime"
@@ -244,6 +245,8 @@ func errClass(err error) string {
 		return "connection-lost(read)"
 	case errors.Is(err, net.ErrClosed):
 		return "net-closed"
+	case errors.Is(err, io.ErrClosedPipe):
+		return "connection-lost(pipe)"
 	case strings.Contains(err.Error(), "unexpected status"):
 		return "sse-status"
 	case strings.Contains(err.Error(), "EOF"):
@@ -435,6 +438,29 @@ func (o subOutcome) key() string {
 		k += " UNFINISHED"
 	}
 	return k
+}
+
+// refKey is the key under which an outcome is compared with the reference set
+// of the differential clause. Where the upstream itself can cut a connection
+// (faulty scenarios) the identity of a connection level failure is not
+// compared: a stream that the upstream's fault ends anyway may be told so
+// through another error value when somebody else cancels meanwhile.
+func (o subOutcome) refKey(faulty bool) string {
+	if !faulty {
+		return o.key()
+	}
+	n := subOutcome{Err: o.Err, Finished: o.Finished}
+	switch {
+	case o.Err == "connection-closed(local)" || o.Err == "net-closed" || strings.HasPrefix(o.Err, "connection-lost"):
+		n.Err = "connection-failed"
+	}
+	for _, m := range o.Msgs {
+		if strings.HasPrefix(m, "connerr:") {
+			m = "connerr"
+		}
+		n.Msgs = append(n.Msgs, m)
+	}
+	return n.key()
 }
 
 func (st *subState) outcome() subOutcome {
